@@ -309,15 +309,18 @@ def cc_to_case(I, a, n):
     name = getattr(case, "cc_name", None)
     if name is None and isinstance(case, (Agg, EnumV)):
         name = case.ty.split("::")[-1]
-    if name != "Snake":
+    joiners = {"Snake": (95, str.lower), "Kebab": (45, str.lower), "Cobol": (45, str.upper), "UpperKebab": (45, str.upper), "UpperSnake": (95, str.upper),
+               "ScreamingSnake": (95, str.upper), "Lower": (32, str.lower), "Upper": (32, str.upper), "Flat": (None, str.lower), "UpperFlat": (None, str.upper)}
+    if name not in joiners:
         raise Unsupported("convert_case to_case(%s)" % name)
+    sep, fn = joiners[name]
     from .models_core import unicode_map
     words = cc_words(I, list(chars_of(a[0])))
     out = []
     for k, w in enumerate(words):
-        if k:
-            out.append(95)
-        out += unicode_map(I, w, str.lower)
+        if k and sep is not None:
+            out.append(sep)
+        out += unicode_map(I, w, fn)
     return RString(out)
 
 
